@@ -16,6 +16,7 @@ import (
 	"io"
 	"log"
 	"math"
+	"os"
 	"strconv"
 	"strings"
 
@@ -32,6 +33,7 @@ type op struct {
 
 type Case struct {
 	Ops []op `json:"ops"`
+	Big *Big `json:"big,omitempty"` // search legs: a long generated history (search.go); Ops is unused then
 }
 
 type ty struct {
@@ -412,8 +414,16 @@ func main() {
 	if r.Replay != "" {
 		var c Case
 		r.LoadReplay(&c)
-		one(r, c)
+		if c.Big != nil {
+			runBig(r, c)
+		} else {
+			one(r, c)
+		}
 		r.Sample(c)
+		return
+	}
+	if os.Getenv("HX_LEGS_ONLY") != "" { // development: the legs of search.go alone
+		legs(r)
 		return
 	}
 	r.Op("info", fmt.Sprintf("word=%d types=%s", word, func() string {
@@ -439,17 +449,17 @@ func main() {
 			vals = append(vals, 0x7ff0000000000000, 0xfff0000000000000, 0x7ff8000000000000, 0x7ff0000000000001, 0xfff4000000abcdef, 0x8000000000000000)
 		}
 		for _, v := range vals {
-			one(r, Case{[]op{{"w", t.name, v}, {"p", t.name, 0}, {"r", t.name, 0}}})
+			one(r, Case{Ops: []op{{"w", t.name, v}, {"p", t.name, 0}, {"r", t.name, 0}}})
 		}
 		// every pair of types: the second value must not be disturbed by the first
 		for j := range types {
 			u := &types[j]
-			one(r, Case{[]op{{"w", t.name, pickValue(r.R, t)}, {"w", u.name, pickValue(r.R, u)}, {"p", t.name, 0}, {"r", t.name, 0}, {"p", u.name, 0}, {"r", u.name, 0}}})
+			one(r, Case{Ops: []op{{"w", t.name, pickValue(r.R, t)}, {"w", u.name, pickValue(r.R, u)}, {"p", t.name, 0}, {"r", t.name, 0}, {"p", u.name, 0}, {"r", u.name, 0}}})
 		}
 		// underflow: empty buffer, and one byte short of the width
-		one(r, Case{[]op{{"r", t.name, 0}, {"p", t.name, 0}}})
+		one(r, Case{Ops: []op{{"r", t.name, 0}, {"p", t.name, 0}}})
 		if t.width > 1 {
-			one(r, Case{[]op{{"w", "Uint8", 0x7f}, {"p", t.name, 0}, {"r", t.name, 0}, {"r", t.name, 0}}})
+			one(r, Case{Ops: []op{{"w", "Uint8", 0x7f}, {"p", t.name, 0}, {"r", t.name, 0}, {"r", t.name, 0}}})
 		}
 	}
 	// all 256 values of the one-byte types
@@ -502,4 +512,5 @@ func main() {
 		r.Note("all 2^16 values of Uint16 and Int16 and all 2^8 values of Uint8 and Int8 were written, peeked and read back on the real code")
 	}
 	r.Note("platform word: %d bytes; %d cases", word, nCases)
+	legs(r) // search.go (after the generators, so that the smallest failing case of a kind is recorded first): cheap legs in every tier, the longer ones from thorough on, the rest with -search only
 }
